@@ -34,6 +34,8 @@ pub struct PubSub {
     pub any_order: bool,
     /// property that owns the delivery clauses (default: derived from faults/close/hostile)
     pub owner: Option<&'static str>,
+    /// ready-gated sinks (see `World::gate`)
+    pub gate: bool,
 }
 
 impl PubSub {
@@ -49,6 +51,7 @@ impl PubSub {
             "close": self.close,
             "hostile_frames": self.hostile,
             "any_registration_order": self.any_order,
+            "ready_gated_sinks": self.gate,
         })
     }
 
@@ -154,6 +157,7 @@ pub struct RunOut {
 pub fn run(scn: &PubSub, ch: &mut Chooser, want_trace: bool) -> RunOut {
     let taken = std::mem::replace(ch, Chooser::new(Vec::new()));
     let w: Shared = Arc::new(Mutex::new(World::new(taken, scn.faults, scn.budget())));
+    lock(&w).gate = scn.gate;
     set_current(Some(w.clone()));
     let (topic, tx) = Topic::<Frame, SeliumError>::pair();
     let mut env = PsEnv { scn, tx, sub_sink: vec![None; scn.subs], pub_stream: vec![None; scn.pubs.len()] };
